@@ -309,9 +309,14 @@ def report(tools, fail, ops, found_input=True, note=""):
     return sig
 
 
-def run_check(ctx, pid, theorems_min=1):
+def run_check(ctx, pid, theorems_min=1, gen=(), explain=None, extra_coverage=None):
+    """`gen`: translator callables run by the proof stage (regenerate lean/OVM/Gen fragments from the current
+    sources); `explain(res) -> [str]`: rewrites the failure list of a failed proof stage (names the theorems);
+    `extra_coverage() -> dict`: merged into the evidence."""
     t0 = time.time()
-    res = proof.proof_stage(ctx, pid)
+    res = proof.proof_stage(ctx, pid, gen=list(gen))
+    if explain is not None and not res["ok"]:
+        res["failures"] = explain(res)
     t_proof = time.time() - t0
     tools = Tools(ctx, pid)
     stats = Stats()
@@ -419,6 +424,8 @@ def run_check(ctx, pid, theorems_min=1):
                        "oracles evaluated on the implementation's dumps; judged by lean/OVM/Registry/Driver.lean",
         "judge": "compiled" if len(tools.judge) == 1 else "interpreted",
     })
+    if extra_coverage is not None:
+        cov.update(extra_coverage())
     if not ctx.replay:
         cov["timing_s"] = {"proof_stage": round(t_proof, 1), "generate_and_judge": round(t_x, 1)}
         if enum_info:
